@@ -580,6 +580,23 @@ func genChainCase(r *Rng) *LCase {
 			if r.Chance(5) {
 				t.Labels["__metrics_path__"] = "/custom"
 			}
+			// an ordinary label that happens to be named like a URL parameter of the job
+			if r.Chance(10) {
+				t.Labels[r.PickS("module", "target")] = r.PickS("lv", "prod")
+			}
+		}
+		// the multi-target exporter pattern: several targets behind one address, told apart by a parameter
+		if r.Chance(12) && len(c.Groups[gi].Targets) > 0 {
+			base := c.Groups[gi].Targets[0]
+			for k := 0; k < 2; k++ {
+				cp := LTarget{Labels: map[string]string{}}
+				for kk, v := range base.Labels {
+					cp.Labels[kk] = v
+				}
+				cp.Labels["__param_target"] = fmt.Sprintf("probe%d", k)
+				cp.Labels["instance"] = fmt.Sprintf("probe%d", k)
+				c.Groups[gi].Targets = append(c.Groups[gi].Targets, cp)
+			}
 		}
 	}
 	return c
